@@ -21,7 +21,4 @@ package userauth
 //@ func RequestAuthorization(ch *tubes.Reliable, username string) (ok bool)
 //@   property C18
 //@   ensures len(username) > 65535 ==> !ok && !called(tubes.Reliable.Write)
-//@ func io.ReadFull(r io.Reader, buf []byte) (n int, err error)
-//@   assume standard library: fills buf from r
-//@   modifies buf[:], opaque(r)
-//@   ensures 0 <= n && n <= len(buf)
+// (the contract of io.ReadFull is in the prelude: byte-stream model)
